@@ -69,6 +69,44 @@ class ClientSubRun:
             self.res.add("C02", "sim_internal", "partial frame on client socket")
         return [h for h, _p in frames]
 
+    def racing_probe(self, what):
+        """Probes are published while the client's request frames are still in flight, so both may be ready
+        in the same select round.  Whatever the service order, a probe that the manager reads AFTER all of the
+        client's request frames must be routed according to the state the client reports."""
+        w = self.w
+        net = w.net
+        c = self.client
+        cconn = c._sock.peer.idx
+        tags = {}
+        for t in self.uni:
+            raw = self.prober.frame(t, b"r")
+            tags[self.prober.sent[-1].tag] = t
+            self.prober.send_raw(raw)
+        w.quiesce()
+        got = {h.msg_type for h in self.drain() if h.send_time in tags}
+        if self.twin is not None and self.twin.connected:
+            self.drain(self.twin)
+        ctl = [fr.done_seq for fr in net.reads if fr.conn == cconn and fr.seq > self.op_start_seq]
+        last_ctl = max(ctl) if ctl else 0
+        sub = c.subscribed_types
+        want = set(self.uni) if sub == {ALL} else set(sub)
+        checked = 0
+        for fr in net.reads:
+            tag = fr.hdr.send_time
+            if tag in tags and fr.seq > last_ctl:
+                t = tags[tag]
+                checked += 1
+                if (t in got) != (t in want):
+                    self.res.add("C02", "disagreement_racing",
+                                 f"after {what}: a message of type {t} read by the manager right after the client's "
+                                 f"request frames was {'delivered' if t in got else 'not delivered'}, while the client "
+                                 f"reports subscribed={self.fmt(sub)}", sig="disagreement_racing")
+                    break
+        if checked:
+            self.res.probes["racing_probes_checked"] += checked
+        if any(fr.hdr.send_time in tags and fr.seq < last_ctl for fr in net.reads):
+            self.res.probes["racing_probe_overtook_request"] += 1
+
     def probe(self):
         """the set of universe types the manager delivers to the client right now"""
         w = self.w
@@ -198,6 +236,8 @@ class ClientSubRun:
                 pass
         s0, p0 = c.subscribed_types, c.paused_subscribed_types
         d0 = self.last_delivered if self.last_delivered is not None else self.probe()
+        self.op_start_seq = self.w.net.seq
+        racing = ch.flag("op.racing", 1, 3)
         self.res.probes[f"op_{kind}"] += 1
         if s0 == {ALL}:
             self.res.probes["op_while_sub_all"] += 1
@@ -216,6 +256,8 @@ class ClientSubRun:
                 self.t(what)
                 {"subscribe": c.subscribe, "unsubscribe": c.unsubscribe, "pause": c.pause_subscription,
                  "resume": c.resume_subscription}[kind](lst)
+                if racing:
+                    self.racing_probe(what)
                 self.check_agreement(what)
             elif kind == "unsub_all":
                 self.t("unsubscribe_from_all()")
